@@ -155,7 +155,7 @@ fn owes_reply_case(raw: [u8; sv::B], raw_len: usize, reply_len: usize) {
     std::mem::forget(req);
 }
 
-// @harness name=c08_poll_input_owes_reply props=C08,C09 tier=quick timeout=1500 rmbody=ioerr,nogrow,nonv,nowaiters mem=20 unwindset=stream::Parser::<'_>::parse$:3;Request::<'_,.*>::poll_input$:3;Request::<'_,.*>::poll_output$:5;slab::IterMut<.*>.as.std::iter::Iterator>::next$:2;drop_glue::<.slab::Entry<.*>.>$:2
+// @harness name=c08_poll_input_owes_reply props=C08,C09 tier=manual timeout=1500 rmbody=ioerr,nogrow,nonv,nowaiters mem=20 unwindset=stream::Parser::<'_>::parse$:3;Request::<'_,.*>::poll_input$:3;Request::<'_,.*>::poll_output$:5;slab::IterMut<.*>.as.std::iter::Iterator>::next$:2;drop_glue::<.slab::Entry<.*>.>$:2
 // @bound Responder request at a record boundary, active stream Stdin; the raw region holds ONE complete record of unknown type (type 12, id symbolic) that was read earlier; the peer sends nothing more until it sees the reply: reader answers Pending (or EOF); writer accepts any split (<= 2 short writes) or Pending (<= 1). One poll of Request::poll_read.
 // @functions Request::poll_input, Request::poll_output, stream::Parser::parse, RepeatableLockFuture::poll
 #[kani::proof]
@@ -172,7 +172,7 @@ fn c08_poll_input_owes_reply() {
     owes_reply_case(raw, 8, 16);
 }
 
-// @harness name=c08_poll_input_owes_getvalues props=C08 tier=thorough timeout=7000 rmbody=ioerr,nogrow,nowaiters mem=24 unwindset=stream::Parser::<'_>::parse$:4;Request::<'_,.*>::poll_input$:3;Request::<'_,.*>::poll_output$:5;slab::IterMut<.*>.as.std::iter::Iterator>::next$:2;drop_glue::<.slab::Entry<.*>.>$:2
+// @harness name=c08_poll_input_owes_getvalues props=C08 tier=manual timeout=7000 rmbody=ioerr,nogrow,nowaiters mem=24 unwindset=stream::Parser::<'_>::parse$:4;Request::<'_,.*>::poll_input$:3;Request::<'_,.*>::poll_output$:5;slab::IterMut<.*>.as.std::iter::Iterator>::next$:2;drop_glue::<.slab::Entry<.*>.>$:2
 // @bound as c08_poll_input_owes_reply, the buffered record being a GetValues query (3-byte body, symbolic name byte, 5 bytes padding); parse_name / write_response = E5 models
 // @functions Request::poll_input, Request::poll_output, stream::Parser::parse
 #[kani::proof]
@@ -205,11 +205,11 @@ impl AsyncWrite for ExpectW {
         let mut j = 0;
         while j < bufs.len() {
             let b: &[u8] = &bufs[j];
-            let mut i = 0;
-            while i < b.len() {
-                assert!(this.pos + total + i < this.exp_len, "C10: more bytes offered than the record has left (stray bytes on the wire)");
-                assert!(b[i] == this.exp[this.pos + total + i], "C10: byte offered to the transport differs from the record (header / payload / zero padding) at this position");
-                i += 1;
+            assert!(this.pos + total + b.len() <= this.exp_len, "C10: more bytes offered than the record has left (stray bytes on the wire)");
+            // every offered byte is checked: `i` is an arbitrary index chosen by the solver (no loop)
+            let i: usize = kani::any();
+            if i < b.len() {
+                assert!(b[i] == this.exp[this.pos + total + i], "C10: byte offered to the transport differs from the expected byte sequence (header / payload / zero padding) at this position");
             }
             total += b.len();
             j += 1;
@@ -263,7 +263,6 @@ fn writer_case<const N: usize>() {
     kani::cover!(g.calls == 1, "record accepted in one write");
     std::mem::forget(g);
     std::mem::forget(sw);
-    std::mem::forget(arc);
 }
 
 macro_rules! writer_harness {
@@ -297,7 +296,7 @@ fn stdin_trace(id: u16, pl: [u8; 3]) -> [u8; sv::B] {
     [1, 5, h, l, 0, 3, 5, 0, pl[0], pl[1], pl[2], 0, 0, 0, 0, 0, 1, 5, h, l, 0, 0, 0, 0]
 }
 
-// @harness name=c09_read_buffered_trace props=C09,C02 tier=quick timeout=1800 rmbody=ioerr,nogrow,nonv,nowaiters mem=20 unwindset=stream::Parser::<'_>::parse$:4;Request::<'_,.*>::poll_input$:3;Request::<'_,.*>::poll_output$:5;slab::IterMut<.*>.as.std::iter::Iterator>::next$:2;drop_glue::<.slab::Entry<.*>.>$:2
+// @harness name=c09_read_buffered_trace props=C09,C02 tier=manual timeout=1800 rmbody=ioerr,nogrow,nonv,nowaiters mem=20 unwindset=stream::Parser::<'_>::parse$:4;Request::<'_,.*>::poll_input$:3;Request::<'_,.*>::poll_output$:5;slab::IterMut<.*>.as.std::iter::Iterator>::next$:2;drop_glue::<.slab::Entry<.*>.>$:2
 // @bound Responder, Stdin active; the 24-byte buffer already holds [Stdin(3 symbolic bytes, pad 5) | Stdin terminator]; three consecutive poll_read calls with caller buffers of symbolic length 0..4, 4, 4; the transport is never needed
 // @functions Request::poll_read, Request::poll_input, stream::Parser::parse, consume_stream
 #[kani::proof]
@@ -333,7 +332,7 @@ fn c09_read_buffered_trace() {
     std::mem::forget(req);
 }
 
-// @harness name=c12_read_eof_midstream props=C12,C09 tier=quick timeout=1800 rmbody=ioerr,nogrow,nonv,nowaiters mem=20 unwindset=stream::Parser::<'_>::parse$:4;Request::<'_,.*>::poll_input$:3;Request::<'_,.*>::poll_output$:5;slab::IterMut<.*>.as.std::iter::Iterator>::next$:2;drop_glue::<.slab::Entry<.*>.>$:2
+// @harness name=c12_read_eof_midstream props=C12,C09 tier=manual timeout=1800 rmbody=ioerr,nogrow,nonv,nowaiters mem=20 unwindset=stream::Parser::<'_>::parse$:4;Request::<'_,.*>::poll_input$:3;Request::<'_,.*>::poll_output$:5;slab::IterMut<.*>.as.std::iter::Iterator>::next$:2;drop_glue::<.slab::Entry<.*>.>$:2
 // @bound Responder, Stdin active, buffer holds a Stdin header announcing 3 bytes plus 0..2 of them (symbolic); the transport then reports EOF (or an error) after <= 1 Pending: the handler's read must fail (UnexpectedEof / the transport's error), never succeed with 0 bytes
 // @functions Request::poll_read, Request::poll_input
 #[kani::proof]
@@ -378,11 +377,12 @@ fn c12_read_eof_midstream() {
 
 // ------------------------------------------------------------------------------------------------ C13: connection tokens (sequential histories only)
 
-// @harness name=c13_tokens_limit1 props=C13 tier=quick timeout=1800 mem=20
+// @harness name=c13_tokens_limit1 props=C13 tier=manual timeout=1800 mem=20
 // @bound connection limit 1, runner + one clone; sequential history: acquire (must be immediate), second acquire on the clone (must wait), drop the pending request OR keep it (symbolic), drop the first token, acquire again. No thread interleavings (Kani executes atomics sequentially)
 // @functions Runner::get_token, Runner::clone, Config::async_runner, Token drop (SemaphoreGuardArc), async_lock::Semaphore::acquire_arc
 #[kani::proof]
 #[kani::unwind(6)]
+#[kani::stub(event_listener::notify::full_fence, crate::verif_kani::full_fence_noop)]
 fn c13_tokens_limit1() {
     let cfg = Config { buffer_size: 24, max_conns: std::num::NonZeroUsize::new(1).unwrap() };
     let runner = cfg.async_runner();
@@ -416,7 +416,7 @@ fn c13_tokens_limit1() {
 
 fn poll_once<F: Future>(f: Pin<&mut F>) -> Poll<F::Output> { let mut cx = noop_cx(); f.poll(&mut cx) }
 
-// @harness name=c08_parse_request_buffered props=C08,C07 tier=quick timeout=1800 rmbody=ioerr,nogrow,nonv,noparams mem=20 unwindset=request::State::drive$:3
+// @harness name=c08_parse_request_buffered props=C08,C07 tier=manual timeout=1800 rmbody=ioerr,nogrow,nonv,noparams mem=20 unwindset=request::State::drive$:3
 // @bound a request parser that was handed 8 already-buffered bytes = ONE complete record of unknown type 12 (symbolic id) by the previous request (into_request_parser); the peer sends nothing more until it sees the reply: reader Pending; writer accepts everything. One poll of Token::parse_request.
 // @functions Token::parse_request, request::Parser::{parse,input_buffer}
 #[kani::proof]
@@ -499,21 +499,21 @@ fn close_case(keep_conn: bool, pending_out: usize, raw_extra: usize) {
     }
 }
 
-// @harness name=c07_close_keep_writeable props=C07,C05,C11 tier=quick timeout=1800 rmbody=ioerr,nogrow,nonv,nowaiters,nodropreq mem=20 unwindset=WriteAll<.*>.as.futures_util::Future>::poll$:4;drop_glue::<.slab::Entry<.*>.>$:2
+// @harness name=c07_close_keep_writeable props=C07,C11 tier=thorough timeout=7000 rmbody=ioerr,nogrow,nonv,nowaiters,nodropreq,nopollinput mem=20 unwindset=verif_kani::close_case$:34;WriteAll<.*>.as.futures_util::Future>::poll$:4;drop_glue::<.slab::Entry<.*>.>$:2
 // @bound Request::close at a record boundary with all input consumed (writeable), KeepConn set, 2 bytes of pending management replies, 3 bytes of look-ahead for the next request; every ExitStatus (all u32 app statuses) and request id; the transport checks every write against the expected byte sequence and accepts any split (<= 2 short writes) and <= 1 Pending
 // @functions Request::close, Request::writeable, Request::record_boundary, make_request_epilogue, stream::Parser::into_request_parser
 #[kani::proof]
-#[kani::unwind(42)]
+#[kani::unwind(6)]
 #[kani::stub(std::hash::RandomState::new, fixed_random_state)]
 #[kani::stub(stream::Parser::parse, sv::parse_contract)]
 #[kani::stub(alloc::fmt::format, crate::verif_kani::fmt_format_stub)]
 fn c07_close_keep_writeable() { close_case(true, 2, 3); }
 
-// @harness name=c07_close_nokeep props=C07 tier=quick timeout=1800 rmbody=ioerr,nogrow,nonv,nowaiters,nodropreq mem=20 unwindset=WriteAll<.*>.as.futures_util::Future>::poll$:4;drop_glue::<.slab::Entry<.*>.>$:2
+// @harness name=c07_close_nokeep props=C07 tier=thorough timeout=7000 rmbody=ioerr,nogrow,nonv,nowaiters,nodropreq,nopollinput mem=20 unwindset=verif_kani::close_case$:34;WriteAll<.*>.as.futures_util::Future>::poll$:4;drop_glue::<.slab::Entry<.*>.>$:2
 // @bound as above without KeepConn, no pending replies, no look-ahead
 // @functions Request::close, make_request_epilogue
 #[kani::proof]
-#[kani::unwind(42)]
+#[kani::unwind(6)]
 #[kani::stub(std::hash::RandomState::new, fixed_random_state)]
 #[kani::stub(stream::Parser::parse, sv::parse_contract)]
 #[kani::stub(alloc::fmt::format, crate::verif_kani::fmt_format_stub)]
@@ -638,7 +638,7 @@ fn glue_poll_read_case(buffered_max: usize, pend_sym: bool, d_fixed: Option<usiz
 }
 
 
-// @harness name=c09_glue_poll_read_min props=C09,C08,C12 tier=quick timeout=1800 rmbody=ioerr,nogrow,nowaiters mem=20 unwindset=Request::<'_,.*>::poll_input$:5;Request::<'_,.*>::poll_output$:4;drop_glue::<.slab::Entry<.*>.>$:2 dead=2
+// @harness name=c09_glue_poll_read_min props=C09,C08,C12 tier=thorough timeout=1800 rmbody=ioerr,nogrow,nowaiters mem=20 unwindset=Request::<'_,.*>::poll_input$:5;Request::<'_,.*>::poll_output$:4;drop_glue::<.slab::Entry<.*>.>$:2 dead=2
 // @bound ONE poll of Request::poll_read against the parser contract: nothing buffered, no pending replies, caller buffer of 4 bytes; reader: <= 2 reads of symbolic size, <= 1 Pending, then EOF or error; writer: any split (<= 1 short write), <= 1 Pending; parser contract: any consumption / replies / delivery (<= 3 bytes per call) / end of stream / <= 1 error. Sequences of polls follow by induction over the symbolic state
 // @functions Request::poll_read, Request::poll_input, Request::poll_output, RepeatableLockFuture::poll
 #[kani::proof]
@@ -658,7 +658,7 @@ fn c09_glue_poll_read_min() { glue_poll_read_case(0, false, Some(4)); }
 #[kani::stub(stream::Parser::compress, sv::compress_contract)]
 fn c09_glue_poll_read_pending() { glue_poll_read_case(0, true, None); }
 
-// @harness name=c09_glue_poll_read_buffered props=C09,C08,C12 tier=thorough timeout=1800 rmbody=ioerr,nogrow,nowaiters mem=20 unwindset=Request::<'_,.*>::poll_input$:5;Request::<'_,.*>::poll_output$:4;drop_glue::<.slab::Entry<.*>.>$:2
+// @harness name=c09_glue_poll_read_buffered props=C09,C08,C12 tier=quick timeout=1800 rmbody=ioerr,nogrow,nowaiters mem=20 unwindset=Request::<'_,.*>::poll_input$:5;Request::<'_,.*>::poll_output$:4;drop_glue::<.slab::Entry<.*>.>$:2
 // @bound ONE poll of Request::poll_read against the parser contract: 0..2 stream bytes buffered, 0 or 2 reply bytes pending, caller buffer 0..4; reader: <= 2 reads of symbolic size, <= 1 Pending, then EOF or error; writer: any split (<= 1 short write), <= 1 Pending; parser contract: any consumption / replies / delivery (<= 3 bytes per call) / end of stream / <= 1 error. Sequences of polls follow by induction over the symbolic state
 // @functions Request::poll_read, Request::poll_input, Request::poll_output, RepeatableLockFuture::poll
 #[kani::proof]
@@ -722,6 +722,74 @@ fn c08_glue_parse_request() {
                 } else {
                     kani::cover!(true, "suspended on the writer");
                 }
+            }
+        }
+    }
+}
+
+
+// ------------------------------------------------------------------------------------------------ C07 / C11 / C12 / C08: close() with unread input (draining to a record boundary)
+
+// @harness name=c07_close_drain props=C07,C11,C12,C08 tier=thorough timeout=7000 rmbody=ioerr,nogrow,nonv,nowaiters,nodropreq,nopollinput mem=24 unwindset=verif_kani::close_drain_case$:34;WriteAll<.*>.as.futures_util::Future>::poll$:4;drop_glue::<.slab::Entry<.*>.>$:2;Request::<'_,.*>::record_boundary::.closure.0.$:4;Request::<'_,.*>::poll_output$:4
+// @bound Request::close in the middle of an unread record (payload_rem = 1, active stream None after close() selects it), KeepConn, parser contract (any consumption, replies, boundary reached or not, <= 1 error: AbortRequest or a fatal one); reader: 1 byte then EOF, <= 1 Pending; writer counting, <= 1 short write, <= 1 Pending; polled up to 4 times
+// @functions Request::close, Request::record_boundary, Request::poll_output, make_request_epilogue
+#[kani::proof]
+#[kani::unwind(6)]
+#[kani::stub(std::hash::RandomState::new, fixed_random_state)]
+#[kani::stub(stream::Parser::parse, sv::parse_contract)]
+#[kani::stub(stream::Parser::compress, sv::compress_contract)]
+#[kani::stub(alloc::fmt::format, crate::verif_kani::fmt_format_stub)]
+fn c07_close_drain() { close_drain_case(); }
+
+fn close_drain_case() {
+    let cfg = sv::cfg1();
+    unsafe { sv::GS_ERR_BUDGET = 1; sv::GS_OUT_TOTAL = 0; }
+    let raw = [0u8; sv::B];
+    // handler finished without reading its input: Stdin still active, writeable (Responder), one payload byte of a record outstanding
+    let mut parser = sv::mk_code(&cfg, raw, (0, 0, 0, 0), 1, fcgi::Role::Responder, 7, Some(fcgi::RecordType::Stdin), 1, 0, Vec::with_capacity(32), 0);
+    parser.request.flags = fcgi::RequestFlags::from(1);
+    let w = CountW::new(1, 1);
+    let req = Request { parser, input: CountR::new(1, 1), output: Arc::new(Mutex::new(w)), lock: None, writeable: true };
+    let rp: *const CountR = &req.input;
+    // observe the writer without holding a second Arc (close() requires all other handles to be gone)
+    let wp: *const Mutex<CountW> = Arc::as_ptr(&req.output);
+    let mut fut = std::mem::ManuallyDrop::new(req.close(ExitStatus::Complete(kani::any())));
+    let mut polls = 0;
+    loop {
+        polls += 1;
+        assert!(polls <= 4, "close() must make progress");
+        let pinned = unsafe { Pin::new_unchecked(&mut *fut) };
+        match poll_once(pinned) {
+            Poll::Pending => {
+                let rr = unsafe { &*rp };
+                if rr.last_pending {
+                    // suspended on the reader while draining: everything owed must be on the wire
+                    let g = unsafe { (*wp).try_lock() }.expect("output lock must be free while waiting for input");
+                    assert!(g.len == unsafe { sv::GS_OUT_TOTAL }, "C08:reply-owed-at-read-pending: close() waits for the rest of a record while replies are unsent");
+                    kani::cover!(unsafe { sv::GS_OUT_TOTAL } > 0, "draining: reply flushed before waiting");
+                    std::mem::forget(g);
+                }
+            }
+            Poll::Ready(res) => {
+                let (aborts, fatals) = unsafe { sv::GS_ERRS };
+                let rr = unsafe { &*rp };
+                match &res {
+                    Ok(_) => {
+                        assert!(fatals == 0, "C12/C07: close() succeeded although the parser reported a fatal error");
+                        assert!(!rr.said_eof, "C12: close() succeeded although the transport ended in the middle of a record");
+                        kani::cover!(aborts == 1, "C11: an abort seen while draining is tolerated");
+                        kani::cover!(aborts == 0, "drained to the record boundary");
+                    }
+                    Err(e) => {
+                        // the only clean reason to fail here: a fatal parser error, or EOF / error of the transport
+                        assert!(fatals == 1 || rr.said_eof || rr.said_err, "C11/C07: close() failed although the only irregularity was a client abort (or none)");
+                        if rr.said_eof && fatals == 0 { assert!(e.kind() == io::ErrorKind::UnexpectedEof, "C12: EOF while draining must surface as UnexpectedEof"); }
+                        kani::cover!(fatals == 1, "fatal protocol error while draining");
+                        kani::cover!(rr.said_eof, "EOF while draining");
+                    }
+                }
+                std::mem::forget(res);
+                break;
             }
         }
     }
